@@ -184,6 +184,14 @@ func (sms *sqlMetadataStore) AppendObject(ctx context.Context, tx *sql.Tx, bucke
 		return nil, err
 	}
 
+	if oldObjectEntity != nil && (oldObjectEntity.IsDeleteMarker || (oldObjectEntity.VersionID != nil && *oldObjectEntity.VersionID != "null")) {
+		// The current version is a delete marker or a versioned (non-null) object
+		// of a suspended bucket. Writes in a non-enabled bucket replace only the
+		// null version, so the appended object is written like a PutObject
+		// instead of mutating that version in place.
+		return sms.PutObject(ctx, tx, bucketName, obj, nil)
+	}
+
 	if oldObjectEntity != nil {
 		existingParts, err := sms.partRepository.FindPartsByObjectIdOrderBySequenceNumberAsc(ctx, tx, *oldObjectEntity.Id)
 		if err != nil {
